@@ -30,9 +30,9 @@ StringsUpTo(n) == UNION {[1..k -> Alphabet] : k \in 0..n}
 Substrings(s) == {SubSeq(s, i, j) : i \in 1..(Len(s) + 1), j \in 0..Len(s)}
   \* SubSeq(s, i, j) with j < i is <<>>, so the empty pattern is included
 
-(* one-symbol near-misses of a pattern: one position changed, or one symbol *)
-(* appended                                                                 *)
-NearMisses(t) == {[t EXCEPT ![j] = NextSym(t[j])] : j \in 1..Len(t)} \cup {t \o <<97>>}
+(* near-misses of a pattern: one position changed, one symbol appended, or  *)
+(* the same letters in the other case ('A' is not 'a')                      *)
+NearMisses(t) == {[t EXCEPT ![j] = NextSym(t[j])] : j \in 1..Len(t)} \cup {t \o <<97>>, StrUpper(t)}
 
 Patterns(s) == Substrings(s) \cup UNION {NearMisses(t) : t \in Substrings(s)}
 
@@ -211,6 +211,7 @@ Replacements(t) == {<<>>, <<98>>, <<233, 128512>>, t}
 ValueCases(s, rk) ==
   LET src == ArgSrc(rk) IN
        {Case(f, rk, s, <<>>) : f \in NullaryFns}
+  \cup {Case(f, rk, StrUpper(s), <<>>) : f \in {"upper", "lower"}}      \* upper-case receivers as well
   \cup {Case("substring", rk, s, <<IArg(src, st)>>) : st \in Starts(s)}
   \cup {Case("substring", rk, s, <<IArg(src, st), IArg(src, n)>>) : st \in Starts(s), n \in Lens(s)}
   \cup {Case(f, rk, s, <<SArg(src, t)>>) : f \in PatternFns, t \in Patterns(s)}
